@@ -348,6 +348,17 @@ func bsigVerifyInst(c *core.Ctx, label string, sharedVerifier bool) *inst {
 		}
 		in.name = label + ":VerifyExchange(one Verifier shared by all callers)"
 		in.run = func(w io.Writer) error { return dump(w, rb, v) }
+		in.reference = func() *inst {
+			rb2, err := bundle.Read(bytes.NewReader(file))
+			if err != nil {
+				panic(err)
+			}
+			v2, err := signature.NewVerifier(rb2.Signatures, tm, rb2.Version)
+			if err != nil {
+				panic(err)
+			}
+			return &inst{name: in.name, props: in.props, run: func(w io.Writer) error { return dump(w, rb2, v2) }}
+		}
 		return in
 	}
 	in.run = func(w io.Writer) error {
